@@ -329,10 +329,10 @@ def run_check(prop, tier, master, workers=None, runs_override=None):
         step = max(1, n // k)
         picks = list(range(0, n, step))[:k]
         recheck.append((name, picks))
-    jobs = [(prop, name, master, idx, cfg.get("chunk_wall", 600),
+    jobs = [(prop, name, master, idx, cfg.get("chunk_wall", 240),
              frozenset(p for nm, picks in recheck if nm == name for p in picks))
             for name, idx in plan]
-    jobs += [(prop, name, master, picks, cfg.get("chunk_wall", 600), frozenset(picks))
+    jobs += [(prop, name, master, picks, cfg.get("chunk_wall", 240), frozenset(picks))
              for name, picks in recheck]
     n_main = len(plan)
 
